@@ -1,6 +1,7 @@
 import Drv.Pure
 import Drv.Stat
 import Drv.Walk
+import Drv.Sync
 open Lean Drv
 
 /-- which repairs (`fix:` commits) the model follows; the driver always runs the repaired model,
@@ -13,6 +14,7 @@ def handle (j : Json) : Except String Json := do
   | "validate" => hValidate j
   | "diff" => hDiff j
   | "walk" => hWalk j
+  | "sync" => hSync j
   | _ => throw s!"bad-op {op}"
 
 partial def loop (h : IO.FS.Stream) (out : IO.FS.Stream) : IO Unit := do
